@@ -7,5 +7,5 @@ Extraction "py_model.ml" flags_sound flags_pinned embed expand p_inst p_esubst p
   py_inst py_esubst py_ssubst simplify hnf py_eq py_fresh metavars p_metavars
   match_single match_list ncall nmatches nassert
   unwrap_imp unwrap_app decon_evar decon_svar decon_sym decon_ex decon_mu
-  basic_mp basic_gen basic_inst decon_nary e_fresh pat_eqb
+  basic_mp basic_gen basic_inst decon_nary unwrap_cls e_fresh pat_eqb
   pretty covers emits instrs_of pretty_step decode.
